@@ -154,7 +154,9 @@ inductive Out where
   deriving Repr, Inhabited
 
 def tblLookup (name : String) (i : Nat) : Option Val :=
-  if name == "isNumberRune" then some (.u8 (SJ.Generated.tIsNumberRune.getD i 0).toUInt8)
+  if name == "shouldEscape" then some (.bool (SJ.Generated.tShouldEscape.getD i 0 != 0))
+  else if name == "valToHex" then some (.u8 (SJ.Generated.tValToHex.getD i 0).toUInt8)
+  else if name == "isNumberRune" then some (.u8 (SJ.Generated.tIsNumberRune.getD i 0).toUInt8)
   else if name == "structuralOrWhitespaceNegated" then some (.u8 (SJ.Generated.tStructuralOrWhitespaceNegated.getD i 0).toUInt8)
   else if name == "TagToType" then some (.u8 (SJ.Generated.tTagToType.getD i 0).toUInt8)
   else if name == "tagOpenToClose" then some (.u8 (SJ.Generated.tTagOpenToClose.getD i 0).toUInt8)
@@ -185,6 +187,7 @@ def binop (op : BinOp) (a b : Val) : Option Val :=
   | .ge, .u64 x, .u64 y => some (.bool (x ≥ y))
   | .eq, .u8 x, .u8 y => some (.bool (x == y))
   | .ne, .u8 x, .u8 y => some (.bool (x != y))
+  | .shr, .u8 x, .int y => if 0 ≤ y ∧ y < 8 then some (.u8 (x >>> UInt8.ofNat y.toNat)) else none
   | .and, .u8 x, .u8 y => some (.u8 (x &&& y))
   | .or,  .u8 x, .u8 y => some (.u8 (x ||| y))
   | .lt, .u8 x, .u8 y => some (.bool (x < y))
